@@ -6,6 +6,10 @@ from .terms import SELF, FAC, TRANSPORT, NONE, Cond, const, is_const, mentions, 
 from .interp import PDU_MODULE, DEQUE_DICT_METHODS
 
 
+MUTATORS = {"append", "extend", "insert", "pop", "popleft", "appendleft", "remove", "clear", "update", "setdefault",
+            "popitem", "add", "discard", "sort", "reverse", "rotate", "extendleft", "__setitem__", "__delitem__"}
+
+
 class CallMixin:
 
     def e_Call(self, n, st, fx):
@@ -358,6 +362,8 @@ class CallMixin:
             self.emit(st, fx, "NONE_DEREF", node, attr=name)
             yield "raise", self.exc(st, "AttributeError", name), st
             return
+        if isinstance(recv, tuple) and recv[0] in ("constobj", "global", "classattr") and name in MUTATORS:
+            self.emit(st, fx, "SHAREDMUT", node, obj=recv, name=name)
         yield "ok", ("call", f, tuple(args)), st
 
     def _is_deferred(self, t):
